@@ -450,7 +450,60 @@ def prop_ledger(sh, case):
     return fails
 
 
-PARTS = {'registry': prop_registry, 'connectives': prop_connectives, 'subquery': prop_subquery, 'coalesce': prop_coalesce, 'pivot': prop_pivot, 'ledger': prop_ledger}
+def prop_untyped(sh, case):
+    """Binary operators with one untyped (object) operand: the compiler casts it to the other operand's type; whatever overload
+    it then picks, the values must conform to the announced datatype - for the untyped operand on the left and on the right,
+    against columns and constants of every scalar type, also under sum() and through a FROM-subquery."""
+    fails = []
+    conn, dcontext = base_connection()
+    castable = {int: [3, '4', D('5'), True, None], D: [3, D('2.5'), '1.25', None], str: ['x', 'abc', 3, None],
+                datetime.date: [datetime.date(2020, 1, 2), '2021-03-04', None], bool: [True, False, 1, 0, '', 'x', None]}
+    consts = {int: A.Constant(2), D: A.Constant(D('1.5')), str: A.Constant('ab'), datetime.date: A.Constant(datetime.date(2020, 1, 2)),
+              bool: A.Constant(True)}
+    binary = [node for node, ops in query_compile.OPERATORS.items()
+              if any(len(getattr(ov, '__intypes__', ())) == 2 for ov in ops) and node is not A.Between]
+    o, t = A.Column('o'), A.Column('t')
+    n = 0
+    for node in binary:
+        for typ, pool in castable.items():
+            rows = [(x, y) for x in pool for y in (POOLS[typ][:3] + [None])]
+            conn.tables['v'] = htables.HTable('v', [('o', object), ('t', typ)], rows)
+            for side, other in itertools.product(('left', 'right'), (t, consts[typ])):
+                e = node(o, other) if side == 'left' else node(other, o)
+                label = f'{node.__name__} untyped {side}, {type_key(typ)} {"column" if other is t else "constant"}'
+                plain = A.Select([A.Target(e, 'r')], A.Table('v'), None, None, None, None, None, None)
+                stmts = [plain,
+                         A.Select([A.Target(A.Function('first', [e]), 'r'), A.Target(A.Function('last', [e]), 'l')], A.Table('v'),
+                                  None, None, None, None, None, None),
+                         A.Select([A.Target(A.Asterisk(), None)], A.Select([A.Target(e, 'r'), A.Target(t, 't')], A.Table('v'), None, None,
+                                                                            None, None, None, None), None, None, None, None, None, None)]
+                for k, stmt in enumerate(stmts):
+                    r = execute(conn, stmt)
+                    if r[0] == 'rejected':
+                        sh.count('untyped_rejected')
+                        break
+                    if r[0] == 'ok':
+                        n += 1
+                        check_result(label, r[1], r[2], dcontext, fails)
+                        continue
+                    if k:
+                        continue
+                    # a cast or operator failed on some row: row by row
+                    for row in rows:
+                        conn.tables['v'] = htables.HTable('v', [('o', object), ('t', typ)], [row])
+                        r1 = execute(conn, plain)
+                        if r1[0] == 'ok':
+                            n += 1
+                            check_result(f'{label} on {row!r}', r1[1], r1[2], dcontext, fails)
+                        else:
+                            sh.count('untyped_row_errors')
+                    conn.tables['v'] = htables.HTable('v', [('o', object), ('t', typ)], rows)
+                    break
+    sh.record('untyped-operands', n > 0, {'statements_observed': n}, n=max(n, 1))
+    return fails
+
+
+PARTS = {'registry': prop_registry, 'connectives': prop_connectives, 'subquery': prop_subquery, 'coalesce': prop_coalesce, 'pivot': prop_pivot, 'untyped': prop_untyped, 'ledger': prop_ledger}
 
 
 def run(sh):
@@ -469,4 +522,7 @@ def run(sh):
     if sh.index == 2 % sh.n:
         for sig, detail in prop_pivot(sh, None):
             sh.fail(sig, detail, None, 'pivot')
+    if sh.index == 5 % sh.n:
+        for sig, detail in prop_untyped(sh, None):
+            sh.fail(sig, detail, None, 'untyped')
     sh.search('ledger', ledger_case(), prop_ledger, quick=800, thorough=30000)
